@@ -14,6 +14,7 @@ import Lomond.Model.Connect
 import Lomond.Model.Handshake
 import Lomond.Model.Proxy
 import Lomond.Model.Transport
+import Lomond.Generated.Code
 
 namespace Lomond.Driver
 open Lomond Lomond.Core
@@ -560,6 +561,8 @@ def handle (line : String) : String :=
     | "inflate" :: args => runInflate args
     | "frame" :: args => runFrame args
     | "http" :: args => runHttp args
+    -- differential test of harness/py2lean.py: evaluate a generated definition
+    | "gen" :: name :: args => Gen.Code.dispatch name args
     | _ => "bad-op"
 
 end Lomond.Driver
